@@ -458,7 +458,11 @@ class Plane(object):
                 'x': self.x.to_array()}
 
     def __copy__(self):
-        return Plane(self.n, self.o, self.x)
+        _new_plane = Plane(self.n, self.o, self.x)
+        # the constructor re-normalizes n and x; a copy keeps the exact stored values
+        _new_plane._n, _new_plane._x = self._n, self._x
+        _new_plane._y, _new_plane._k = self._y, self._k
+        return _new_plane
 
     def __key(self):
         """A tuple based on the object properties, useful for hashing."""
